@@ -122,9 +122,16 @@ def split_attrs(ts, start=0):
     """Leading outer attributes: returns (list of bracket-group token lists, index after them)."""
     attrs = []
     i = start
-    while i + 1 < len(ts) and is_p(ts[i], "#") and is_g(ts[i + 1], "["):
-        attrs.append(ts[i + 1]["s"])
-        i += 2
+    while i + 1 < len(ts) and is_p(ts[i], "#"):
+        if is_g(ts[i + 1], "["):
+            attrs.append(ts[i + 1]["s"])
+            i += 2
+        elif i + 2 < len(ts) and is_p(ts[i + 1], "!") and is_g(ts[i + 2], "["):
+            # an inner attribute (`#![..]`) in front of the first item of a module body
+            attrs.append(ts[i + 2]["s"])
+            i += 3
+        else:
+            break
     return attrs, i
 
 
